@@ -25,8 +25,9 @@ RULE = (
     "directions) for aligned values; a non-aligned float lands on one of its two neighbouring microseconds (this is "
     "order preservation between the aligned neighbours); a<=b => conv(a)<=conv(b) for all six conversions, strict for "
     "distinct aligned values; datetime results are timezone-aware. Non-trivial: a value has a non-zero sub-second "
-    "part. now: every Scheduler subclass found by introspection x constructor/singleton x clock values; oracle: "
-    "now is a datetime with utcoffset() == 0. Distinct = distinct case JSON. atheris (thorough): the conv "
+    "part. now: every Scheduler subclass found by introspection x constructor/singleton x clock values x process "
+    "time zone (host zone, TZ=XXX-5:30, TZ=YYY+8 via time.tzset(), restored afterwards); oracle: now is a datetime "
+    "with utcoffset() == 0. Distinct = distinct case JSON. atheris (thorough): the conv "
     "strategy+oracle driven by libFuzzer through hypothesis.fuzz_one_input."
 )
 ASSUMPTIONS = [
@@ -34,6 +35,7 @@ ASSUMPTIONS = [
     "datetimes are timezone-aware (naive datetimes cannot be subtracted from the UTC epoch and are outside the quantifier)",
     "HistoricalScheduler is given UTC initial clocks only (with a non-UTC aware clock its now keeps the caller's tzinfo)",
     "event-loop/main-loop schedulers are constructed around inert stub loop objects; only their now property is read",
+    "the now check switches the process time zone (os.environ['TZ'] + time.tzset()) around the reads and restores it; shards are single-threaded",
     "the platform's datetime.fromtimestamp/timedelta(seconds=) float rounding (CPython: round-half-even) is part of the trusted base",
 ]
 
@@ -434,7 +436,17 @@ def _scheduler_classes():
     return dict(sorted(out.items()))
 
 
+PROCESS_ZONES = [None, "XXX-5:30", "YYY+8"]  # host zone as is; POSIX TZ strings for UTC+05:30 and UTC-08:00
+
+
 def _now_cases(tier):
+    for tz in PROCESS_ZONES:
+        for c in _now_cases_one_zone():
+            c["tz"] = tz
+            yield c
+
+
+def _now_cases_one_zone():
     classes = _scheduler_classes()
     rec = _recipes()
     clocks_f = [{"us": 0}, {"us": 1500000}, {"us": -2500001}, {"hex": (0.1).hex()}, {"int": 7}, {"us": MAXUS}, {"hex": (1234.5678915).hex()}]
@@ -457,6 +469,29 @@ def _now_cases(tier):
 
 
 def _run_now(case):
+    """Reads `now` with the process-local time zone switched to case["tz"] (restored afterwards): a now built from
+    local time is then visibly not UTC even when the host itself runs on UTC."""
+    tz = case.get("tz")
+    if tz is None:
+        return _run_now_in_zone(case)
+    import time
+
+    old = os.environ.get("TZ")
+    os.environ["TZ"] = tz
+    time.tzset()
+    try:
+        if datetime.now().astimezone().utcoffset() == timedelta(0):
+            raise HarnessError(f"process zone {tz} did not take effect")
+        return _run_now_in_zone(case)
+    finally:
+        if old is None:
+            os.environ.pop("TZ", None)
+        else:
+            os.environ["TZ"] = old
+        time.tzset()
+
+
+def _run_now_in_zone(case):
     classes = _scheduler_classes()
     name, how = case["cls"], case["how"]
     c = classes.get(name)
@@ -499,7 +534,7 @@ def _run_now(case):
             return FAIL(f"now-naive|{name}", f"{name}.{what} = {now!r} is not timezone-aware; case={case}")
         if now.utcoffset() != timedelta(0):
             return FAIL(f"now-not-utc|{name}", f"{name}.{what} = {now!r} has utcoffset {now.utcoffset()}; case={case}")
-    return OK(True, [f"now:{how}", "now:virtual" if name in _VIRTUAL else "now:wall-clock"])
+    return OK(True, [f"now:{how}", "now:virtual" if name in _VIRTUAL else "now:wall-clock", f"now:process-zone:{case.get('tz') or 'host'}"])
 
 
 # ---------------------------------------------------------------------------------------
